@@ -113,6 +113,9 @@ def handle (req : Json) : Except String Json := do
       ("out", match out with
         | .value b => obj [("value", ofList ofNat b)]
         | .raised => obj [("raised", Json.bool true)])])
+  | "sem" =>
+    let t := openmlSem (← bool (← field req "hasSem")) (← bool (← field req "cached1")) (← bool (← field req "cached2"))
+    pure (obj [("acquires", ofNat t.acquires), ("releases", ofNat t.releases)])
   | _ => throw s!"unknown op {op}"
 
 end Coba.C19.Driver
